@@ -50,6 +50,7 @@ func runC15(c *Ctx) {
 	writerGrowRules(c, "C15")
 	c11HeadEnd(c)
 	c15PrefetchMeasured(c)
+	c15ErrorGuarded(c)
 	writerFlushFragmentRules(c, "C15")
 	// last: the bounds rule uses what every fold above established about the sites it executed
 	c15Bounds(c)
@@ -1034,4 +1035,112 @@ func calleeGuardsResult(v ssa.Value) bool {
 		}
 	}
 	return false
+}
+
+// c15ErrorGuarded: a pointer or interface that comes out of a call outside the
+// module together with an error is nil when the error is not (ReadRequest,
+// ReadResponse, url.Parse, ...). Every use that dereferences it - a field
+// access, a method call through the interface, a load - must sit behind the
+// test of that error, on the side where it is nil.
+func c15ErrorGuarded(c *Ctx) {
+	const rule = "C15.error-guarded-results"
+	c.R.Rule(rule, 2, "a pointer returned together with an error by a call outside the module is dereferenced only where that error was tested and found nil")
+	n := 0
+	for _, fn := range c.P.AllModuleFuncs() {
+		name := astFuncName(fn)
+		for _, b := range fn.Blocks {
+			for _, in := range b.Instrs {
+				call, ok := in.(*ssa.Call)
+				if !ok {
+					continue
+				}
+				callee := call.Call.StaticCallee()
+				if callee == nil || load.InModule(callee) {
+					continue
+				}
+				res := call.Call.Signature().Results()
+				if res.Len() < 2 || !types.Identical(res.At(res.Len()-1).Type(), types.Universe.Lookup("error").Type()) {
+					continue
+				}
+				var errV *ssa.Extract
+				var ptrs []*ssa.Extract
+				for _, r := range *call.Referrers() {
+					ex, ok := r.(*ssa.Extract)
+					if !ok {
+						continue
+					}
+					if ex.Index == res.Len()-1 {
+						errV = ex
+						continue
+					}
+					if _, isPtr := ex.Type().Underlying().(*types.Pointer); isPtr {
+						ptrs = append(ptrs, ex)
+					}
+				}
+				for _, p := range ptrs {
+					var uses []ssa.Instruction
+					for _, r := range *p.Referrers() {
+						switch x := r.(type) {
+						case *ssa.FieldAddr:
+							if x.X == ssa.Value(p) {
+								uses = append(uses, x)
+							}
+						case *ssa.UnOp:
+							if x.Op == token.MUL && x.X == ssa.Value(p) {
+								uses = append(uses, x)
+							}
+						}
+					}
+					if len(uses) == 0 {
+						continue
+					}
+					n++
+					key := fmt.Sprintf("%s/%s: %s", rule, name, shortName(callee.String()))
+					pos := c.P.Pos(call.Pos())
+					if errV == nil {
+						c.R.Fail(rule, key, pos, "the result of "+callee.String()+" is dereferenced in "+name+" although its error is discarded")
+						continue
+					}
+					// blocks reached only when the error is nil
+					var okBlocks []*ssa.BasicBlock
+					for _, bb := range fn.Blocks {
+						if len(bb.Instrs) == 0 {
+							continue
+						}
+						iff, ok := bb.Instrs[len(bb.Instrs)-1].(*ssa.If)
+						if !ok {
+							continue
+						}
+						bo, ok := iff.Cond.(*ssa.BinOp)
+						if !ok || !(bo.X == ssa.Value(errV) || bo.Y == ssa.Value(errV)) {
+							continue
+						}
+						switch bo.Op {
+						case token.EQL:
+							okBlocks = append(okBlocks, bb.Succs[0])
+						case token.NEQ:
+							okBlocks = append(okBlocks, bb.Succs[1])
+						}
+					}
+					bad := ""
+					for _, u := range uses {
+						guarded := false
+						for _, ob := range okBlocks {
+							// the successor must be entered only through the test (one predecessor), and dominate the use
+							if len(ob.Preds) == 1 && ob.Dominates(u.Block()) {
+								guarded = true
+							}
+						}
+						if !guarded {
+							bad = c.P.Pos(u.Pos())
+							break
+						}
+					}
+					c.R.Check(bad == "", rule, key, pos, "every dereference is on the err == nil side of the test",
+						"the pointer returned by "+callee.String()+" is dereferenced at "+bad+" where its error has not been found nil: on a failure the pointer is nil and "+name+" panics on input the peer controls")
+				}
+			}
+		}
+	}
+	c.R.Sites += n
 }
